@@ -169,6 +169,11 @@ def run(ctx):
                     "in one of those letters are over-stripped".format(n.func.attr, a, sorted(set(a)), a),
                 )
     ctx.count("strip_calls_with_constant_argument", n_strip)
+    # a transformation applied by an emitter that its parser does not undo is growth outside the IR slots:
+    # the JSON-schema Literal <-> pattern siblings (shared with C06.pattern)
+    from .c06 import _pattern
+
+    _pattern(ctx, index)
 
 
 def _discharge(index, f, n, slot, art, facts, seen_pairs):
